@@ -105,3 +105,25 @@ Example C06_example :
   | None => Raise KeyError
   end = Ok ([0; 0; 0; 2; 0; 0; 0; 99] ++ [0; 0; 2; 0] ++ [3; 0x21; 0x80; 5] ++ zeros 16)%list.
 Proof. vm_compute. reflexivity. Qed.
+
+(* ---------------------------------------------------------------------------------------------------------------------
+   Both directions of a structure with a descriptor LIST, over the REGENERATED bodies of builder and decoder (Gen/PyFuncs.v) under the
+   semantics of the small Python (Model/Py.v): GET LBA STATUS, any number of descriptors. *)
+From Coq Require Import ZArith List.
+From PS Require Import Model.Py Proofs.PyParsers Proofs.PyRoundTrip Gen.PyFuncs.
+Import ListNotations.
+
+(* the builder: header whose PARAMETER DATA LENGTH counts what follows it, then one 16-byte descriptor per dictionary, in order *)
+Theorem C06_py_getlbastatus_build : forall (all : list (list (String.string * value) * bytes)) f,
+  Forall (fun p => encode_dict (fst p) T_gls (zeros 16) = Ok (snd p) /\ length (snd p) = 16%nat) all -> (1 <= f)%nat ->
+  call_fun all_tables py_program f GLSM [PDict [("lbas", PList (map (fun p => gls_dict (fst p)) all))]]
+  = Ok (PBytes (int_to_ba (N.of_nat (4 + 16 * length all)) 4 ++ zeros 4 ++ concat (map snd all))%list).
+Proof. exact getlbastatus_build_exact. Qed.
+
+(* build, then parse: every list of complete valid descriptor dictionaries comes back, whole and in order *)
+Theorem C06_py_getlbastatus_parse_inverts_build : forall (dvs : list (list (String.string * value))) f,
+  Forall (fun dv => valid_dict 16 T_gls dv = true /\ map fst dv = map fst T_gls) dvs ->
+  (Z.of_nat (length dvs) <= 100000000)%Z -> (length dvs + 2 <= f)%nat ->
+  exists built, call_fun all_tables py_program f GLSM [PDict [("lbas", PList (map gls_dict dvs))]] = Ok (PBytes built) /\
+    call_fun all_tables py_program f GLS [PBytes built] = Ok (PDict [("lbas", PList (map gls_dict dvs))]).
+Proof. exact getlbastatus_parse_inverts_build. Qed.
